@@ -183,11 +183,20 @@ where
             h_edits.push(("to-one-byte", Some(vec![0x41])));
         }
     }
+    // `to-none` / `to-empty` first: these spellings are the ones a stale per-(key, L) state would serve
+    h_edits.sort_by_key(|e| if e.0.starts_with("to-") { 0 } else { 1 });
     for (tag, h2) in h_edits {
+        // re-prime with the honest verification: the state most likely to be reused wrongly
+        let _ = sig.verify(pk, Some(&msgs), hdr);
         debug_assert!(h2.clone().unwrap_or_default() != hb);
         cx.expect_reject("header-edit", v(&msgs, h2.as_deref(), pk), || tag.to_string())?;
     }
 
+    // the honest statement is verified again before each remaining family (stale-state defects need it)
+    let prime = || {
+        let _ = sig.verify(pk, Some(&msgs), hdr);
+    };
+    prime();
     // --- other public keys --------------------------------------------------------------------
     let other = {
         let mut k2 = c.key.clone();
@@ -227,6 +236,7 @@ where
     rep.class_n("sig-bit-flips", flips);
 
     // --- cross suite ------------------------------------------------------------------------
+    prime();
     {
         let acc = with_suite!(c.suite.other(), CS2 => {
             match Signature::<BBSplus<CS2>>::from_bytes(&sb) {
@@ -244,6 +254,7 @@ where
     }
 
     // --- cross interface ----------------------------------------------------------------------
+    prime();
     {
         let bs = BlindSignature::<BBSplus<CS>>::from_bytes(&sb);
         if let Ok(bs) = bs {
